@@ -1,10 +1,13 @@
 package executor
 
 import (
+	"crypto/md5"
 	"os"
 	"path/filepath"
+	"time"
 
 	rt "github.com/alpacahq/marketstore/v4/internal/zzverifrt"
+	"github.com/alpacahq/marketstore/v4/utils/io"
 )
 
 // a well-formed WAL header: STATUS message, file OPEN, NOT REPLAYED, owner instance 7
@@ -55,4 +58,113 @@ func VerifC06Replay() {
 		rt.Reach("replay-ok")
 	}
 	rt.Reach("done")
+}
+
+// C06 (c'): header ++ one TGDATA record whose length field is consistent (so the body reaches
+// the parser during the second replay pass) but whose body and checksum are arbitrary bytes.
+func VerifC06ReplayTG() {
+	rt.Opt("clock", 1)
+	root := rt.TempDir()
+	defer rt.Cleanup()
+	lo, hi := int64(7), int64(22)
+	if rt.Tier() == 1 {
+		hi = 34
+	}
+	n := int(rt.Fix(rt.Int("tglen", lo, hi)))
+	body := rt.Bytes("tg", n)
+	tail := rt.Bytes("tail", int(rt.Fix(rt.Int("taillen", 0, 2))))
+	ln := []byte{byte(n), 0, 0, 0, 0, 0, 0, 0}
+	// the checksum is either the right one for these bytes or a wrong one
+	h := md5.New()
+	h.Write(ln)
+	h.Write(body)
+	ck := h.Sum(nil)
+	if !rt.Bool("checksum_valid") {
+		ck[0] ^= 0xff
+	}
+	path := filepath.Join(root, "WALFile.1.walfile")
+	vWriteFile(path, vWALHeader(), []byte{byte(TGDATA)}, ln, body, ck, tail)
+	rt.Reach("entered")
+	w, err := TakeOverWALFile(path)
+	if err != nil {
+		rt.Reach("takeover-error")
+		return
+	}
+	err = w.Replay(false)
+	if err != nil {
+		rt.Reach("replay-error")
+	} else {
+		rt.Reach("replay-ok")
+	}
+	rt.Reach("done")
+}
+
+// C06 (d): an intact committed transaction followed by damage. Process 1 writes one row (WAL
+// record + commit marker, no checkpoint); its primary write is then undone (as if the page cache
+// had been lost) so that replay is observable; damage is appended to the WAL; process 2 starts
+// and replays. The row must be back. Damage shapes: up to 10 arbitrary bytes (too short to forge
+// a checkpoint record, which needs 11), or one / two transaction records with a wrong checksum
+// followed by up to 2 arbitrary bytes.
+func VerifC06IntactPrefix() {
+	rt.Opt("clock", 1)
+	root := rt.TempDir()
+	defer rt.Cleanup()
+	tbk := io.NewTimeBucketKey("AAPL/1D/OHLCV")
+	t0 := time.Date(2020, 3, 2, 0, 0, 0, 0, time.UTC).Unix()
+	t1 := t0 + 86400
+	e1 := vStart(root, 11)
+	// the bucket exists and is checkpointed before the transaction under test
+	rt.Assert(vWriteRows(e1, tbk, []int64{t0}, []int32{5}) == nil, "write-accepted")
+	rt.Assert(e1.wf.CreateCheckpoint() == nil, "checkpoint-ok")
+	dataFile := filepath.Join(root, "AAPL/1D/OHLCV/2020.bin")
+	before := rt.FileBytes(dataFile)
+	v := rt.Int32("v")
+	rt.Assert(vWriteRows(e1, tbk, []int64{t1 + rt.Int("sec", 0, 86399)}, []int32{v}) == nil, "write-accepted")
+	walPath := e1.wf.FilePtr.Name()
+	// undo the primary write
+	vWriteFile(dataFile, before)
+	// damage
+	var dmg [][]byte
+	badTG := func(tag string) []byte {
+		body := rt.Bytes(tag, 8)
+		h := md5.New()
+		ln := []byte{8, 0, 0, 0, 0, 0, 0, 0}
+		h.Write(ln)
+		h.Write(body)
+		ck := h.Sum(nil)
+		ck[0] ^= 0xff
+		rec := append([]byte{byte(TGDATA)}, ln...)
+		rec = append(rec, body...)
+		return append(rec, ck...)
+	}
+	switch rt.Fix(rt.Int("damage", 0, 2)) {
+	case 0:
+		dmg = append(dmg, rt.Bytes("garbage", int(rt.Fix(rt.Int("garbage_len", 0, 10)))))
+	case 1:
+		dmg = append(dmg, badTG("bad1"), rt.Bytes("garbage", int(rt.Fix(rt.Int("garbage_len", 0, 2)))))
+	case 2:
+		dmg = append(dmg, badTG("bad1"), badTG("bad2"), rt.Bytes("garbage", int(rt.Fix(rt.Int("garbage_len", 0, 2)))))
+	}
+	fp, err := os.OpenFile(walPath, os.O_RDWR, 0o600)
+	if err != nil {
+		panic("harness: " + err.Error())
+	}
+	fp.Seek(0, 2)
+	for _, d := range dmg {
+		if len(d) > 0 {
+			fp.Write(d)
+		}
+	}
+	fp.Close()
+	rt.Reach("entered")
+	e2, rerr := vRestart(root, 22)
+	rt.Assert(rerr == nil, "restart-succeeds")
+	rt.Reach("restarted")
+	cs, qerr := e2.queryAll(tbk)
+	rt.Assert(qerr == nil, "query-without-error")
+	rows := vRowsOf(cs, false)
+	rt.Reach("queried")
+	rt.Assert(len(rows) == 2, "intact-committed-transaction-applied")
+	rt.Assert(rows[0].sec == t0 && rows[0].v == 5, "earlier-row-untouched")
+	rt.Assert(rows[1].sec == t1 && rows[1].v == v, "intact-committed-transaction-applied")
 }
